@@ -40,6 +40,11 @@ ASSUMPTIONS = [
 DRAW_BUDGET = 60000
 
 
+class Interrupted(Exception):
+    """Injected fault: the random source fails in the middle of a builder call (stands for an
+    interrupted generation); the caller catches it and keeps using the same builder object."""
+
+
 class DrawBudgetExceeded(Exception):
     pass
 
@@ -205,6 +210,9 @@ def generate(rng, tier, index):
     sc["walk"] = [rng.randrange(10**6) for _ in range(steps)]
     # bias of the walk: prefer an update kind for stretches so that merge/split/move all occur
     sc["prefer"] = [rng.choice(["any", "merge", "split", "move"]) for _ in range(steps)]
+    r = pyrandom.Random(rng.random())  # one draw: the rest of the scenario stream is unchanged
+    if r.random() < 0.08:
+        sc["interrupt"] = {"phase": r.choice(["initial", "walk", "walk"]), "step": r.randrange(max(1, min(steps, 6))), "draw": r.choice([1, 1, 2, 3, 5, 9])}
     return sc
 
 
@@ -323,6 +331,8 @@ class _Seam:
         self.draws = 0
         self.saved = []
         self.paused = False
+        self.interrupt_at = None  # absolute draw number at which the random source fails once
+        self.interrupts_fired = 0
 
     def _count(self):
         if self.paused:
@@ -331,6 +341,10 @@ class _Seam:
         self.res.steps += 1
         if self.draws > DRAW_BUDGET:
             raise DrawBudgetExceeded()
+        if self.interrupt_at is not None and self.draws >= self.interrupt_at:
+            self.interrupt_at = None
+            self.interrupts_fired += 1
+            raise Interrupted("injected: the random source failed")
 
     def install(self):
         import cspuz.generator.deterministic_random as dr
@@ -404,7 +418,18 @@ def run(sc) -> RunResult:
             allow_unmet_constraints_first=sc["allow_unmet"],
             initial_blocks=init_blocks,
         )
+        intr = sc.get("interrupt")
         try:
+            if intr and intr["phase"] == "initial":
+                seam.interrupt_at = seam.draws + intr["draw"]
+                try:
+                    builder.initial()
+                except Interrupted:
+                    # the caller catches the failure and asks the same builder again
+                    res.hit("fault:random_source_failed_during_initial")
+                    res.log("initial", "interrupted", seam.draws)
+                finally:
+                    seam.interrupt_at = None
             cur = builder.initial()
         except DrawBudgetExceeded:
             res.inconclusive = True
@@ -447,8 +472,17 @@ def run(sc) -> RunResult:
         for step, (pick, prefer) in enumerate(zip(sc["walk"], sc["prefer"])):
             res.steps += 1
             snapshot = copy.deepcopy(cur)
+            if intr and intr["phase"] == "walk" and intr["step"] == step:
+                seam.interrupt_at = seam.draws + intr["draw"]
             try:
                 cands = builder.candidates(cur)
+            except Interrupted:
+                # the failure reached the caller: it carries on with the same builder from (a copy of)
+                # the value it had
+                res.hit("fault:random_source_failed_during_candidates")
+                res.log("step", step, "interrupted", seam.draws)
+                cur = snapshot
+                continue
             except DrawBudgetExceeded:
                 res.inconclusive = True
                 res.hit("inconclusive:draw_budget")
@@ -456,6 +490,8 @@ def run(sc) -> RunResult:
             except Exception as e:
                 res.violate("C18/unexpected-exception", f"step {step}: candidates({canonical(cur)}) raised {type(e).__name__}: {str(e)[:120]} [{tag}]")
                 return res
+            finally:
+                seam.interrupt_at = None
             if cur != snapshot:
                 res.violate("C18/source-value-mutated", f"step {step}: candidates() modified the value it was given [{tag}]")
                 return res
